@@ -387,6 +387,17 @@ def check(run):
             fails += 1
             run.findings.append(Finding("C09.py.history.rank_deficient_model", "rank-deficient-refused", f"mass model with a derived weight state (covariances rank deficient by two): {why}", {"language": "python", "inputs": {"model": "rank_deficient", "steps": rsteps, "seed": run.seed}, "oracle_verdict": why}, True))
     if not fails:
+        # ONE state with a THREE-reading sensor (H 3x1, S 3x3): the update's covariance against the exact textbook value, then two
+        # more operations on it (a refused covariance would raise)
+        from replay import kalman
+
+        histories += 1
+        run.native_runs += 1
+        op = kalman.native_update((1, 0, 3), run.seed, None)[0]
+        if op:
+            fails += 1
+            run.findings.append(Finding("C09.py.history.one_state_many_readings", "1xm", f"one-state model with a three-reading sensor: {op[0]}", {"language": "python", "inputs": {"model": "one_state", "seed": run.seed}, "oracle_verdict": op[:3]}, True))
+    if not fails:
         histories += 1
         run.native_runs += 1
         ok, why = singular_history(400 if run.tier == "thorough" else 80, 0.1)
@@ -425,6 +436,12 @@ def replay_file(payload):
         ok, why = mass_model_history(inp["steps"], inp["dt"])
         print("replay mass model history:", why)
         return ok
+    if inp.get("model") == "one_state":
+        from replay import kalman
+
+        op = kalman.native_update((1, 0, 3), inp.get("seed", 0), None)[0]
+        print("replay one-state / three-reading update:", op[:2] or "as the textbook update")
+        return not op
     if inp.get("model") == "rank_deficient":
         ok, why = rank_deficient_history(inp["steps"], inp.get("seed", 0))
         print("replay rank-deficient history:", why)
